@@ -23,9 +23,9 @@ Definition wcfg : config Q :=
   [(("T2", "pos_1"), Build_centry Q (Some (WRel (1 # 2))) (Some (-12, 9)));
    (("G2", "a"), Build_centry Q (Some (WAbs (1 # 4))) (Some (-11, 11)))].
 
-Example wm_wf : wf Q wm /\ coll_const_free Q wm /\ is_pm Q wm = true.
+Example wm_wf : wf Q wm /\ is_pm Q wm = true.
 Proof.
-  split; [|split; [simpl; auto 10|reflexivity]].
+  split; [|reflexivity].
   simpl. repeat split; auto; try discriminate; repeat constructor; simpl; intuition discriminate.
 Qed.
 
@@ -66,7 +66,7 @@ Example wm_instance_same :
   inst Q qbin (fun q => Some (inject_Z (Z.of_nat q) + 10)) n' = inst Q qbin (fun q => Some (inject_Z (Z.of_nat q) + 10)) wm.
 Proof.
   intros n' sp E. rewrite qpass_is_lpass in E.
-  apply (l_instance_kept Q _ _ _ qbin (MMeans None None false [1 # 2; 3]) wm n' sp _ (proj1 wm_wf) (proj1 (proj2 wm_wf)) I E).
+  apply (l_instance_kept Q _ _ _ qbin (MMeans None None false [1 # 2; 3]) wm n' sp _ (proj1 wm_wf) I E).
 Qed.
 
 Example wm_bounded :
